@@ -14,6 +14,8 @@ use mdk_storage_traits::messages::types::{Message, MessageState, ProcessedMessag
 use mdk_storage_traits::welcomes::types::{ProcessedWelcome, ProcessedWelcomeState, Welcome, WelcomeState};
 use mdk_storage_traits::welcomes::Pagination as WPagination;
 use mdk_storage_traits::{GroupId, MdkStorageProvider, Secret};
+use mdk_storage_traits::groups::GroupStorage as _;
+use mdk_storage_traits::messages::MessageStorage as _;
 use mdk_verif_harness::out::{Run, arg};
 use mdk_verif_harness::rng::Rng;
 use nostr::{EventId, Keys, Kind, PublicKey, RelayUrl, Tag, Tags, Timestamp, UnsignedEvent};
@@ -143,6 +145,16 @@ fn exec<S: MdkStorageProvider>(s: &S, m: &Maps, line: &str) -> String {
     let sort = |i: usize| if n(i) == 0 { MessageSortOrder::CreatedAtFirst } else { MessageSortOrder::ProcessedAtFirst };
     let og = |g: u64| m.gid(g);
     match t[1] {
+        "UpdPtr" => {
+            // pure: Group::update_last_message_if_newer on a group whose cached pointer is (at, processed_at, id) and a message
+            // (created_at, processed_at, id):  ST UpdPtr <at|-> <pat|-> <id|-> <mat> <mpat> <mid>
+            let ga = format!("0 0 0 0 - 0 {} {} {} 1 0 0", a[2], a[0], a[1]);
+            let mut g = mk_group(m, &ga.split(' ').collect::<Vec<_>>());
+            let ma = format!("{} 0 1 9 {} {} 0 0 0 - 1", a[5], a[3], a[4]);
+            let msg = mk_msg(m, &ma.split(' ').collect::<Vec<_>>());
+            let moved = g.update_last_message_if_newer(&msg);
+            format!("ptr:{},{},{} moved={}", show_opt(g.last_message_at.map(|t| t.as_secs())), show_opt(g.last_message_processed_at.map(|t| t.as_secs())), show_opt(g.last_message_id.map(|e| m.eid_n(&e))), moved as u8)
+        }
         "SaveGroup" => ok(s.save_group(mk_group(m, a)).map_err(|e| e.to_string())),
         "FindGroup" => match s.find_group_by_mls_group_id(&m.gid(n(0))) { Ok(g) => format!("group:{}", g.map(|g| show_group(m, &g)).unwrap_or("-".into())), Err(_) => "err".into() },
         "FindByNostr" => match s.find_group_by_nostr_group_id(&m.b32(n(0))) { Ok(g) => format!("group:{}", g.map(|g| show_group(m, &g)).unwrap_or("-".into())), Err(_) => "err".into() },
@@ -327,7 +339,11 @@ impl Gen {
                 let off = match self.r.below(12) { 0 => "max".to_string(), 1 => "i64max1".to_string(), _ => self.r.below(6).to_string() };
                 (format!("ST Messages {g} {limit} {off} {}", self.r.below(2)), "Messages")
             }
-            53..=54 => (format!("ST LastMessage {g} {}", self.r.below(2)), "LastMessage"),
+            53 => (format!("ST LastMessage {g} {}", self.r.below(2)), "LastMessage"),
+            54 => {
+                let o = |r: &mut Rng, lo: u64, n: u64| if r.chance(1, 6) { "-".to_string() } else { (lo + r.below(n)).to_string() };
+                (format!("ST UpdPtr {} {} {} {} {} {}", o(&mut self.r, 9, 3), o(&mut self.r, 0, 3), o(&mut self.r, 0, 6), 9 + self.r.below(3), self.r.below(3), self.r.below(6)), "UpdPtr")
+            }
             55..=60 => (format!("ST SavePmsg {} {} {} {} {} {} {}", self.r.below(10), self.o(), self.r.below(5), self.o(), if self.r.chance(1, 5) { "-".into() } else { self.r.below(4).to_string() }, self.r.below(6), self.o()), "SavePmsg"),
             61 => (format!("ST FindPmsg {}", self.r.below(10)), "FindPmsg"),
             62..=63 => (format!("ST InvalidateMsgs {g} {}", self.r.below(4)), "InvalidateMsgs"),
@@ -416,6 +432,21 @@ fn run_with_oracles<S: MdkStorageProvider>(s: &S, m: &Maps, backend: &str, line:
         }
         if t[1] == "Release" { copies.remove(&(g, t[3].parse().unwrap())); }
         if t[1] == "Prune" && t[2] != "0" { copies.clear(); }
+    }
+    if t[1] == "UpdPtr" && t[2] != "-" && t[3] != "-" && t[4] != "-" && t[4] != t[7] && res.starts_with("ptr:") {
+        // C18: the cached pointer names the head of the listing: put the pointed-at message and the new one into a scratch
+        // store, list them in display order, and compare the head with the pointer after the update
+        let scratch = MdkMemoryStorage::new();
+        let ga = "0 0 0 0 - 0 - - - 1 0 0".split(' ').collect::<Vec<_>>();
+        let _ = scratch.save_group(mk_group(m, &ga));
+        let old = format!("{} 0 1 9 {} {} 0 0 0 - 1", t[4], t[2], t[3]);
+        let new = format!("{} 0 1 9 {} {} 0 0 1 - 1", t[7], t[5], t[6]);
+        let _ = scratch.save_message(mk_msg(m, &old.split(' ').collect::<Vec<_>>()));
+        let _ = scratch.save_message(mk_msg(m, &new.split(' ').collect::<Vec<_>>()));
+        if let Ok(list) = scratch.messages(&m.gid(0), None) { if let Some(head) = list.first() {
+            let want = format!("ptr:{},{},{}", head.created_at.as_secs(), head.processed_at.as_secs(), m.eid_n(&head.id));
+            if !res.starts_with(&want) { fails.push(("C18", format!("[{backend}] last-message pointer ({},{},{}) offered message ({},{},{}) becomes {res}, but the listing of those two messages is headed by {want}", t[2], t[3], t[4], t[5], t[6], t[7]))); }
+        } }
     }
     if t[1] == "Messages" && res != "PANIC" {
         if let Some(e) = guarded(|| check_listing(s, m, line, &res).unwrap_or_default()).into() { let e: String = e; if !e.is_empty() { fails.push(("C18", format!("[{backend}] {e}"))); } }
